@@ -334,8 +334,9 @@ type PagerCase struct {
 	Text    []string `json:"text"`
 	Width   int      `json:"width"`
 	Height  int      `json:"height"`
-	Scrolls []int    `json:"scrolls"`        // +1 down, -1 up, 0 draw
-	Cuts    []int    `json:"cuts,omitempty"` // the text is handed over as segments cut before these cluster indices
+	Scrolls []int    `json:"scrolls"`          // +1 down, -1 up, 0 draw
+	Cuts    []int    `json:"cuts,omitempty"`   // the text is handed over as segments cut before these cluster indices
+	Width2  int      `json:"width2,omitempty"` // the model was drawn at this width before (0 = not)
 }
 
 // segments cuts the text into the segments the pager is given (never inside a
@@ -421,6 +422,28 @@ func runPager(c PagerCase) string {
 			prev, breaks = vis, 0
 			vis++
 		}
+	}
+	// the same model in a window that had another width before: what it
+	// shows is a function of the text and the window, not of earlier frames
+	if c.Width2 >= 2 && c.Width2 != c.Width {
+		m3 := &pager.Model{Segments: c.segments()}
+		h.Vx.Window().Clear()
+		if p := guard(func() { m3.Draw(h.Vx.Window().New(0, 0, c.Width2, 40)) }); p != "" {
+			return fmt.Sprintf("pager text %q width %d: Draw panicked: %s", text, c.Width2, p)
+		}
+		h.Vx.Window().Clear()
+		if p := guard(func() { m3.Draw(h.Vx.Window().New(0, 0, c.Width, 40)) }); p != "" {
+			return fmt.Sprintf("pager text %q width %d after width %d: Draw panicked: %s", text, c.Width, c.Width2, p)
+		}
+		h.Vx.Render()
+		rows3, _ := readRows(h, hostCols, 40)
+		if strings.Join(trimRows(rows3), "\n") != strings.Join(trimRows(rows), "\n") {
+			return fmt.Sprintf("pager text %q at width %d: a model drawn before at width %d shows %q, a new one shows %q", text, c.Width, c.Width2, trimRows(rows3), trimRows(rows))
+		}
+		// leave the screen as the first model drew it for the checks below
+		h.Vx.Window().Clear()
+		m.Draw(h.Vx.Window().New(0, 0, c.Width, 40))
+		h.Vx.Render()
 	}
 	// nothing is drawn right of the window
 	h.Term.Lock()
@@ -632,6 +655,10 @@ func TestPager(t *testing.T) {
 		k := rapid.IntRange(0, 24).Draw(rt, "len")
 		for i := 0; i < k; i++ {
 			c.Text = append(c.Text, rapid.SampledFrom([]string{"a", "a", "b", "宽", " ", "\n"}).Draw(rt, "g"))
+		}
+		if rapid.Bool().Draw(rt, "resized") {
+			c.Width2 = rapid.IntRange(2, 12).Draw(rt, "w2")
+			harness.R.Label(sub, "model drawn before at another width")
 		}
 		if k > 1 && rapid.IntRange(0, 2).Draw(rt, "segmented") == 1 {
 			harness.R.Label(sub, "text in several segments")
